@@ -1153,6 +1153,9 @@ class Interp:
                 r = a in b.s
             elif isinstance(b, (tuple, list, set, frozenset, dict, str)) and not isinstance(a, (Sym, ALine)):
                 r = a in b
+            elif a == '\\' and isinstance(b, (ALine, APart)):
+                # the abstract lines of the scenarios stand for text whose only backslash is the continuation mark (backslashes inside literals are the concrete engines' business)
+                r = isinstance(b, ALine) and b.cont is not None
             else:
                 self.bad(node, 'membership test outside the subset')
             return r if isinstance(op, ast.In) else not r
